@@ -120,8 +120,9 @@ func exploreAll(ctx *vc.Ctx, rep *vc.Report, idx *int64, name string, mk func() 
 		rep.Count(fmt.Sprintf("unbounded_scenarios_capped_by_state_limit_env%d", envBound), 1)
 		rep.Caps = append(rep.Caps, fmt.Sprintf("unbounded search of %s stopped at the state limit %d (bounded search unaffected)", name, maxStates))
 	case st.Truncated:
-		rep.Truncated = true
-		rep.Caps = append(rep.Caps, fmt.Sprintf("deadline hit in the unbounded search of %s", name))
+		// the time cap ended the cached pass; the deviation-bounded families ran before it and are not affected
+		rep.Count("unbounded_scenarios_stopped_by_time_cap", 1)
+		rep.Caps = append(rep.Caps, fmt.Sprintf("time cap hit in the cached search of %s (bounded search unaffected)", name))
 	default:
 		rep.Count(fmt.Sprintf("unbounded_scenarios_completed_env%d", envBound), 1)
 		rep.Count("unbounded_states_of_completed_scenarios", int64(st.Visited))
